@@ -377,9 +377,17 @@ class Translator:
             x = x["inner"][0]
         return x
 
+    def is_heap_pointer(self, a):
+        """a genuine pointer value (heap block), not an array that merely decays to a pointer for the subscript"""
+        base = self.strip_casts(a)
+        bt = base.get("type", {}).get("qualType", "")
+        if bt.rstrip().endswith("]"):
+            return False
+        return self.is_pointer(base) or (self.is_pointer(a) and not bt.rstrip().endswith("]"))
+
     def e_ArraySubscriptExpr(self, n):
         a, i = self.kids(n)
-        if self.is_pointer(self.strip_casts(a)) or self.is_pointer(a):
+        if self.is_heap_pointer(a):
             return f"{self.prim('c_load')}({self.expr(a)}, {self.expr(i)})"
         return f"{self.expr(a)}[{self.expr(i)}]"
 
@@ -623,7 +631,7 @@ class Translator:
             l0 = self.strip_casts(lhs)
             if l0.get("kind") == "ArraySubscriptExpr":
                 a, i = self.kids(l0)
-                if self.is_pointer(self.strip_casts(a)) or self.is_pointer(a):
+                if self.is_heap_pointer(a):
                     i0 = self.strip_casts(i)
                     if i0.get("kind") == "UnaryOperator" and i0.get("opcode") == "++" and i0.get("isPostfix"):
                         tgt = self.kids(i0)[0]
